@@ -337,7 +337,8 @@ func c18EnumUnit(c *mon.Ctx, r *mon.Rng, per int) {
 			if oi.Verdict() != on.Verdict() {
 				fi, fn := lib.Validate(inlineSp, doc), lib.Validate(namedSp, doc)
 				if fi.Verdict() == fn.Verdict() {
-					c.Inconclusive("verdict differed on a reused schema object but not on a fresh one (C11 territory)")
+					c.Violate("enum-reused", c18EnumCase{namedSp, inlineSp, doc}, "same verdict", fmt.Sprintf("named: %s; inline: %s", on, oi),
+						"{enum: @E} and the inline list disagree on schema objects used before, fresh objects agree")
 				} else {
 					c.Violate("enum-differential", c18EnumCase{namedSp, inlineSp, doc}, "same verdict",
 						fmt.Sprintf("named: %s; inline: %s", fn, fi), "{enum: @E} with the added rule does not validate like the same list written inline")
@@ -355,7 +356,8 @@ func c18EnumUnit(c *mon.Ctx, r *mon.Rng, per int) {
 			if on.Verdict() != want.String() {
 				fn := lib.Validate(namedSp, doc)
 				if fn.Verdict() == want.String() {
-					c.Inconclusive("verdict differed on a reused schema object but not on a fresh one (C11 territory)")
+					c.Violate("enum-reused", c18EnumCase{namedSp, inlineSp, doc}, want.String(), on.String(),
+						"the enum verdict on a schema object used before differs from the membership oracle, a fresh object agrees ("+o.Why+")")
 					continue
 				}
 				c.Violate("enum-oracle", c18EnumCase{namedSp, inlineSp, doc}, want.String(), fn.String(),
@@ -567,7 +569,10 @@ func c18RegexUnit(c *mon.Ctx, r *mon.Rng, per int) {
 			if on.Verdict() != want || oi.Verdict() != want {
 				fn, fi := lib.Validate(namedSp, doc), lib.Validate(inlineSp, doc)
 				if fn.Verdict() == want && fi.Verdict() == want {
-					c.Inconclusive("verdict differed on a reused schema object but not on a fresh one (C11 territory)")
+					rc3 := rc
+					rc3.Doc = doc
+					c.Violate("regex-reused", rc3, want+"/"+want, on.Verdict()+"/"+oi.Verdict(),
+						"the regex verdict on schema objects used before differs from regexp.MatchString, fresh objects agree (named/inline shown)")
 					continue
 				}
 				rc2 := rc
@@ -667,6 +672,8 @@ func init() {
 				json.Unmarshal(raw, &rc)
 				return lib.Safe(enum.New("@E", rc.Text).Check).Verdict()
 			},
+			"enum-reused":  func(json.RawMessage) string { return "needs the history of the schema object: not replayable from the case alone" },
+			"regex-reused": func(json.RawMessage) string { return "needs the history of the schema object: not replayable from the case alone" },
 			"rule-check-twice": func(raw json.RawMessage) string {
 				var rc c18RuleCase
 				json.Unmarshal(raw, &rc)
